@@ -13,6 +13,15 @@ class AnalysisError(Exception):
     vacuous): exit 2, never a VIOLATION."""
 
 
+class Refuted(Exception):
+    """Raised by a shared library function when what it looks at definitely breaks the clause it serves (not a
+    "cannot decide"): the check that called it reports the finding under its own property and stops."""
+    def __init__(self, rule, instance, where, func, construct, message):
+        super().__init__(message)
+        self.rule, self.instance, self.where, self.func, self.construct, self.message = \
+            rule, instance, where, func, construct, message
+
+
 class Finding:
     def __init__(self, pid, rule, instance, where, func, construct, message):
         self.pid, self.rule, self.instance = pid, rule, instance
